@@ -567,3 +567,98 @@ func treasureForEvent(v int64, w int) treasure.Treasure {
 	t.ReleaseTreasureGuard(g)
 	return t
 }
+
+// ---------- C26: malformed requests ----------
+
+// VerifC26Malformed: every listed unary handler gets a structurally malformed request: a swamp
+// name of 0..maxName SYMBOLIC bytes (so any number of '/' separators, empty parts, ...), key
+// lists that are nil / hold an empty key / hold a normal key, a symbolic (possibly negative)
+// offset and limit, a zero increment. A well-formed swamp "s/r/w" with one record exists next to
+// it. Every handler must return an error or a non-nil response - never (nil, nil) -, no panic may
+// escape, the system lock must be released, and afterwards the existing record is intact and
+// the well-formed swamp still works.
+func VerifC26Malformed(h *verifrt.H) {
+	g, _ := gwNew(h)
+	ctx := context.Background()
+	one := int64(1)
+	_, err := g.Set(ctx, &hydrapb.SetRequest{Swamps: []*hydrapb.SwampRequest{{SwampName: gwSwamp, CreateIfNotExist: true, Overwrite: true,
+		KeyValues: []*hydrapb.KeyValuePair{{Key: "a", Int64Val: &one}}}}})
+	h.Assert(err == nil, "setup")
+	sn := gwSwamp
+	if h.Choose("goodSwampName", 2) == 0 {
+		sn = h.String("swampName", h.Len("swampNameLen", 0, h.Param("maxName", 4)))
+	}
+	var keys []string
+	switch h.Choose("keys", 3) {
+	case 1:
+		keys = []string{""}
+	case 2:
+		keys = []string{"a"}
+	}
+	key := ""
+	if len(keys) > 0 {
+		key = keys[0]
+	}
+	from, limit := int32(h.IntRange("from", -1, 2)), int32(h.IntRange("limit", -1, 2))
+	var resp any
+	var rerr error
+	isNil := false
+	check := func(r any, nilResp bool, e error) { resp, isNil, rerr = r, nilResp, e }
+	switch h.Choose("handler", h.Param("handlers", 12)) {
+	case 0:
+		r, e := g.Get(ctx, &hydrapb.GetRequest{Swamps: []*hydrapb.GetSwamp{{SwampName: sn, Keys: keys}}})
+		check(r, r == nil, e)
+	case 1:
+		r, e := g.Delete(ctx, &hydrapb.DeleteRequest{Swamps: []*hydrapb.DeleteRequest_SwampKeys{{SwampName: sn, Keys: keys}}})
+		check(r, r == nil, e)
+	case 2:
+		r, e := g.Count(ctx, &hydrapb.CountRequest{Swamps: []*hydrapb.CountRequest_SwampIdentifier{{SwampName: sn}}})
+		check(r, r == nil, e)
+	case 3:
+		r, e := g.IsKeyExist(ctx, &hydrapb.IsKeyExistRequest{SwampName: sn, Key: key})
+		check(r, r == nil, e)
+	case 4:
+		r, e := g.GetByIndex(ctx, &hydrapb.GetByIndexRequest{SwampName: sn, IndexType: hydrapb.IndexType_KEY, OrderType: hydrapb.OrderType_ASC, From: from, Limit: limit})
+		check(r, r == nil, e)
+	case 5:
+		r, e := g.ShiftByKeys(ctx, &hydrapb.ShiftByKeysRequest{SwampName: sn, Keys: keys})
+		check(r, r == nil, e)
+	case 6:
+		r, e := g.IncrementInt64(ctx, &hydrapb.IncrementInt64Request{SwampName: sn, Key: key, IncrementBy: int64(h.Choose("incrementBy", 2))})
+		check(r, r == nil, e)
+	case 7:
+		var kvs []*hydrapb.KeyValuePair
+		for _, k := range keys {
+			kvs = append(kvs, &hydrapb.KeyValuePair{Key: k, Int64Val: &one})
+		}
+		r, e := g.Set(ctx, &hydrapb.SetRequest{Swamps: []*hydrapb.SwampRequest{{SwampName: sn, CreateIfNotExist: true, Overwrite: true, KeyValues: kvs}}})
+		check(r, r == nil, e)
+	case 8:
+		r, e := g.Uint32SliceSize(ctx, &hydrapb.Uint32SliceSizeRequest{SwampName: sn, Key: key})
+		check(r, r == nil, e)
+	case 9:
+		r, e := g.IsSwampExist(ctx, &hydrapb.IsSwampExistRequest{SwampName: sn})
+		check(r, r == nil, e)
+	case 10: // a batch RPC: one well-formed entry and the malformed one
+		r, e := g.ShiftExpiredTreasuresMany(ctx, &hydrapb.ShiftExpiredTreasuresManyRequest{Requests: []*hydrapb.ShiftExpiredTreasuresRequest{
+			{SwampName: gwSwamp, HowMany: 1}, {SwampName: sn, HowMany: limit}}})
+		check(r, r == nil, e)
+		h.Assert(e != nil || r != nil && len(r.Responses) == 2, "batch-one-entry-per-request")
+	case 11:
+		r, e := g.Destroy(ctx, &hydrapb.DestroyRequest{SwampName: sn})
+		check(r, r == nil, e)
+	}
+	_ = resp
+	h.Assert(!isNil || rerr != nil, "handler-returns-error-or-response")
+	h.ClearKnown()
+	h.Assert(!g.ZeusInterface.GetSafeops().SystemLocked(), "system-lock-released")
+	// the untouched record is still there and the server still works
+	gr, gerr := g.Get(ctx, &hydrapb.GetRequest{Swamps: []*hydrapb.GetSwamp{{SwampName: gwSwamp, Keys: []string{"a"}}}})
+	touched := sn == gwSwamp
+	if !touched {
+		h.Assert(gerr == nil && gr != nil && len(gr.Swamps) == 1 && len(gr.Swamps[0].Treasures) == 1 && gr.Swamps[0].Treasures[0].IsExist && gr.Swamps[0].Treasures[0].GetInt64Val() == 1, "existing-data-intact-and-server-usable")
+	} else {
+		h.Assert(gerr != nil || gr != nil, "server-usable-afterwards")
+	}
+	h.Cover("end")
+}
